@@ -7,3 +7,4 @@ func c29Scenarios(thorough bool) []vScn { return nil }
 func c17Scenarios(thorough bool) []vScn { return nil }
 func c21ConcScenarios(thorough bool) []vScn { return nil }
 func shimConformance(c *vCtx) {}
+func c18ConcScenarios(thorough bool) []vScn { return nil }
